@@ -424,6 +424,9 @@ class WARCRecorder(object):
 
             if self._params.move_to is not None:
                 self._move_file_to_dest_dir(self._warc_filename)
+        elif self._params.move_to is not None:
+            # Without a log record the last WARC file is complete as well.
+            self._move_file_to_dest_dir(self._warc_filename)
 
         if self._cdx_filename and self._params.move_to is not None:
             self._move_file_to_dest_dir(self._cdx_filename)
